@@ -11,7 +11,7 @@ K_CONTEXT = [
 ]
 PROPS = {
     'C02': {'units': ['expr', 'lower', 'opt', 'fuse', 'fvalid', 'run19'], 'kani': K_ANALYSIS + [{'crate': 'p3-circuit', 'harness': 'c02_allocator_monotone'}]},
-    'C03': {'units': ['opt', 'fuse'], 'kani': K_ANALYSIS},
+    'C03': {'units': ['opt', 'fuse', 'fvalid'], 'kani': K_ANALYSIS},
     'C19': {'units': ['run19'], 'kani': K_CONTEXT},
     'C20': {'units': ['gad', 'quot', 'fri', 'periodic'], 'kani': [], 'only': {'fri': r'evaluate_polynomial|circuit_exp_by_constant|lemma_'}},
     'C07': {'units': ['fri', 'shape', 'fold', 'fchain', 'fquery', 'evpts', 'openin'], 'kani': [], 'only': {'shape': r'verify_fri_circuit'}, 'exclude': r'possible (bit shift|arithmetic)'},
